@@ -156,7 +156,7 @@ prop(
 
 prop(
     "C10",
-    contract_modules=["contracts.c10"],
+    contract_modules=["contracts.c10", "contracts.c10v"],
     bcc="c10",
     level="other",
     claimed=False,
